@@ -14,6 +14,11 @@ def units(tier, seed):
     us = cases.wf_units(tier, seed, with_streams=False)
     for u in us:
         u["seed"] = seed
+    # every session / encryption configuration of every frame as a root of its own (<= 1 deviation around it, so that
+    # e.g. an encrypted first parameter of size 0 is reached)
+    for u in cases.fault_units(tier, seed, k=1, with_prims=False, with_structs=False, with_streams=False):
+        if u["variant"] in ("sess1", "sess0", "sess4", "decrypt", "decrypt-pw", "encrypted", "failed", "failed-flag"):
+            us.append(dict(u, seed=seed, label="variant:" + u["label"], budget=300, k_min=0))
     return us
 
 
